@@ -133,7 +133,7 @@ func runC04(p *P, r *R) {
 		for _, ret := range returnsOf(f) {
 			isFull := false
 			if len(ret.Results) == 1 {
-				if u, ok := ret.Results[0].(*ssa.UnOp); ok && u.Op == token.MUL {
+				if u, ok := resultOf(ret, 0).(*ssa.UnOp); ok && u.Op == token.MUL {
 					if g, ok := u.X.(*ssa.Global); ok && g.Name() == "ErrQueueFull" {
 						isFull = true
 					}
